@@ -1667,3 +1667,453 @@ func E9CubicDirection(c *core.Ctx, r *core.Report) {
 	r.Count("E9.cubic-deriv-uses", n)
 	r.Floor("E9.cubic-deriv-uses", 4)
 }
+
+// E9AbsorbConserves: a segment absorbed by mergeOverlapping hands over all of its own winding contributions.
+func E9AbsorbConserves(c *core.Ctx, r *core.Report) {
+	r.Rule("E9.absorb-conserves", "SweepPoint.mergeOverlapping folds the identical segments below s into s and zeroes them. The fields of s it accumulates into with `+=` (the contributions of the segments themselves: selfWindings for s's own path, otherSelfWindings for the other path) are exactly the fields an absorbed segment may already carry from segments it absorbed earlier. On every path through the absorbing loop each of these fields of prev is therefore added to exactly one of these fields of s, one-to-one — straight when `s.clipping == prev.clipping`, crosswise otherwise — before prev is zeroed. Dropping one transfer loses the windings of a segment that was absorbed in two steps (three segments that become identical through snapping, stacked P/Q/P): the merged edge gets a wrong inResult and the result contour cannot be closed")
+	p := c.MustPkg("")
+	info := p.TypesInfo
+	fd := core.MustFuncDecl(p, "SweepPoint.mergeOverlapping")
+	r.Func("canvas.SweepPoint.mergeOverlapping")
+	recv := recvObj(info, fd)
+	// the absorbing loop: a for statement whose post/init walks `X = X.prev`
+	var loop *ast.ForStmt
+	var prevObj types.Object
+	ast.Inspect(fd.Body, func(m ast.Node) bool {
+		f, ok := m.(*ast.ForStmt)
+		if !ok || loop != nil {
+			return true
+		}
+		if as, ok := f.Post.(*ast.AssignStmt); ok && len(as.Lhs) == 1 && len(as.Rhs) == 1 {
+			if id, ok := as.Lhs[0].(*ast.Ident); ok {
+				if se, ok := as.Rhs[0].(*ast.SelectorExpr); ok && se.Sel.Name == "prev" {
+					if xid, ok := se.X.(*ast.Ident); ok && core.ObjOf(info, xid) == core.ObjOf(info, id) {
+						loop, prevObj = f, core.ObjOf(info, id)
+					}
+				}
+			}
+		}
+		return true
+	})
+	key := "canvas.SweepPoint.mergeOverlapping|every own-contribution field of the absorbed segment is handed over one-to-one"
+	if loop == nil || recv == nil {
+		r.Fail("E9.absorb-conserves", key, c.Pos(fd.Pos()), "the loop that walks the segments below (X = X.prev) was not found")
+		return
+	}
+	fieldOf := func(e ast.Expr, base types.Object) string {
+		se, ok := core.Unparen(e).(*ast.SelectorExpr)
+		if !ok {
+			return ""
+		}
+		id, ok := core.Unparen(se.X).(*ast.Ident)
+		if !ok || core.ObjOf(info, id) != base {
+			return ""
+		}
+		return se.Sel.Name
+	}
+	// accumulated fields of s
+	F := map[string]bool{}
+	ast.Inspect(loop.Body, func(m ast.Node) bool {
+		if as, ok := m.(*ast.AssignStmt); ok && as.Tok == token.ADD_ASSIGN && len(as.Lhs) == 1 {
+			if f := fieldOf(as.Lhs[0], recv); f != "" {
+				F[f] = true
+			}
+		}
+		return true
+	})
+	if len(F) == 0 {
+		r.Fail("E9.absorb-conserves", key, c.Pos(loop.Pos()), "the absorbing loop accumulates nothing into the receiver")
+		return
+	}
+	// enumerate paths
+	type path struct {
+		transfers map[string][]string // prev field -> s fields
+		conds     []string
+		sameClip  int // 1 true-branch of clipping equality, -1 else, 0 none
+	}
+	var paths []path
+	var walk func(stmts []ast.Stmt, cur path, k func(path))
+	clone := func(pp path) path {
+		q := path{transfers: map[string][]string{}, conds: append([]string{}, pp.conds...), sameClip: pp.sameClip}
+		for k, v := range pp.transfers {
+			q.transfers[k] = append([]string{}, v...)
+		}
+		return q
+	}
+	isClipEq := func(e ast.Expr) int {
+		be, ok := core.Unparen(e).(*ast.BinaryExpr)
+		if !ok || (be.Op != token.EQL && be.Op != token.NEQ) {
+			return 0
+		}
+		a, b := fieldOf(be.X, recv), fieldOf(be.Y, prevObj)
+		if a == "" {
+			a, b = fieldOf(be.Y, recv), fieldOf(be.X, prevObj)
+		}
+		if a == "" || a != b {
+			return 0
+		}
+		if be.Op == token.EQL {
+			return 1
+		}
+		return -1
+	}
+	walk = func(stmts []ast.Stmt, cur path, k func(path)) {
+		if len(stmts) == 0 {
+			k(cur)
+			return
+		}
+		st, rest := stmts[0], stmts[1:]
+		next := func(pp path) { walk(rest, pp, k) }
+		switch x := st.(type) {
+		case *ast.BranchStmt:
+			return // break/continue: the segment is not absorbed on this path
+		case *ast.BlockStmt:
+			walk(x.List, cur, next)
+			return
+		case *ast.IfStmt:
+			t, f := clone(cur), clone(cur)
+			t.conds = append(t.conds, c.Src(x.Cond))
+			f.conds = append(f.conds, "!("+c.Src(x.Cond)+")")
+			if ce := isClipEq(x.Cond); ce != 0 {
+				t.sameClip, f.sameClip = ce, -ce
+			}
+			walk(x.Body.List, t, next)
+			switch e := x.Else.(type) {
+			case nil:
+				next(f)
+			case *ast.BlockStmt:
+				walk(e.List, f, next)
+			case *ast.IfStmt:
+				walk([]ast.Stmt{e}, f, next)
+			}
+			return
+		case *ast.AssignStmt:
+			if x.Tok == token.ADD_ASSIGN && len(x.Lhs) == 1 && len(x.Rhs) == 1 {
+				if tf := fieldOf(x.Lhs[0], recv); tf != "" {
+					if sf := fieldOf(x.Rhs[0], prevObj); sf != "" {
+						cur = clone(cur)
+						cur.transfers[sf] = append(cur.transfers[sf], tf)
+					}
+				}
+			}
+		}
+		walk(rest, cur, k)
+	}
+	walk(loop.Body.List, path{transfers: map[string][]string{}}, func(pp path) { paths = append(paths, pp) })
+	var fields []string
+	for f := range F {
+		fields = append(fields, f)
+	}
+	sort.Strings(fields)
+	bad := ""
+	for _, pp := range paths {
+		used := map[string]bool{}
+		identity := true
+		for _, f := range fields {
+			ts := pp.transfers[f]
+			if len(ts) != 1 {
+				bad = fmt.Sprintf("on the path `%s` the absorbed segment's %s is added to the receiver %d times", strings.Join(pp.conds, " && "), f, len(ts))
+				break
+			}
+			if !F[ts[0]] || used[ts[0]] {
+				bad = fmt.Sprintf("on the path `%s` two contributions go to the same field %s", strings.Join(pp.conds, " && "), ts[0])
+				break
+			}
+			used[ts[0]] = true
+			if ts[0] != f {
+				identity = false
+			}
+		}
+		if bad != "" {
+			break
+		}
+		if pp.sameClip == 1 && !identity {
+			bad = fmt.Sprintf("on the path `%s` (same path) the contributions are handed over crosswise", strings.Join(pp.conds, " && "))
+		} else if pp.sameClip == -1 && identity && len(fields) > 1 {
+			bad = fmt.Sprintf("on the path `%s` (different paths) the contributions are handed over straight", strings.Join(pp.conds, " && "))
+		}
+		if bad != "" {
+			break
+		}
+	}
+	if len(paths) == 0 {
+		bad = "no path through the absorbing loop reaches its end"
+	}
+	if bad != "" {
+		r.Fail("E9.absorb-conserves", key, c.Pos(loop.Pos()), bad+": the windings of a segment that had itself absorbed a segment are lost or counted for the wrong path when it is zeroed")
+	} else {
+		r.OK("E9.absorb-conserves", key, c.Pos(loop.Pos()), fmt.Sprintf("%d paths, fields %v", len(paths), fields))
+	}
+	r.Count("E9.absorb-paths", len(paths))
+	r.Floor("E9.absorb-paths", 2)
+}
+
+// E9DepthFromResultEdge: the nesting depth of a new contour is read from a segment of the result.
+func E9DepthFromResultEdge(c *core.Ctx, r *core.Report) {
+	r.Rule("E9.depth-from-result-edge", "bentleyOttmann's contour builder takes the nesting depth of a new contour from the resultWindings of a segment below its first edge. Only segments of the result carry that number (it is assigned while their contour is built), so the segment it is read from must be established to be one: the variable is first moved down the `prev` chain past segments that are not (a loop `for X != nil && !X.F { X = X.prev }` over a boolean field F), and F is assigned from a test of `inResult` for every event before the builder starts consuming inResult (`inResult--`). Reading it from the segment directly below makes a hole whose bottom edge lies above a non-result segment an outer contour")
+	p := c.MustPkg("")
+	info := p.TypesInfo
+	fd := core.MustFuncDecl(p, "bentleyOttmann")
+	r.Func("canvas.bentleyOttmann")
+	// first consumption of inResult
+	firstDec := token.Pos(1 << 60)
+	ast.Inspect(fd.Body, func(m ast.Node) bool {
+		if ids, ok := m.(*ast.IncDecStmt); ok && ids.Tok == token.DEC {
+			if se, ok := ids.X.(*ast.SelectorExpr); ok && se.Sel.Name == "inResult" && ids.Pos() < firstDec {
+				firstDec = ids.Pos()
+			}
+		}
+		return true
+	})
+	n := 0
+	ast.Inspect(fd.Body, func(m ast.Node) bool {
+		as, ok := m.(*ast.AssignStmt)
+		if !ok || len(as.Rhs) != 1 {
+			return true
+		}
+		se, ok := core.Unparen(as.Rhs[0]).(*ast.SelectorExpr)
+		if !ok || se.Sel.Name != "resultWindings" {
+			return true
+		}
+		xid, ok := core.Unparen(se.X).(*ast.Ident)
+		if !ok {
+			return true // copies between the two end points of one edge
+		}
+		// skip `X.other.resultWindings = X.resultWindings`
+		if l, ok := as.Lhs[0].(*ast.SelectorExpr); ok && l.Sel.Name == "resultWindings" {
+			return true
+		}
+		X := core.ObjOf(info, xid)
+		n++
+		key := fmt.Sprintf("canvas.bentleyOttmann|depth read #%d comes from a segment established to be in the result", n)
+		// the skipping loop before the read
+		var flag string
+		ast.Inspect(fd.Body, func(k ast.Node) bool {
+			f, ok := k.(*ast.ForStmt)
+			if !ok || f.Cond == nil || f.Pos() > as.Pos() {
+				return true
+			}
+			// X = X.prev in post or body
+			moves := false
+			ast.Inspect(f, func(q ast.Node) bool {
+				if a2, ok := q.(*ast.AssignStmt); ok && len(a2.Lhs) == 1 && len(a2.Rhs) == 1 {
+					if lid, ok := a2.Lhs[0].(*ast.Ident); ok && core.ObjOf(info, lid) == X {
+						if s2, ok := a2.Rhs[0].(*ast.SelectorExpr); ok && s2.Sel.Name == "prev" {
+							if rid, ok := s2.X.(*ast.Ident); ok && core.ObjOf(info, rid) == X {
+								moves = true
+							}
+						}
+					}
+				}
+				return true
+			})
+			if !moves {
+				return true
+			}
+			ast.Inspect(f.Cond, func(q ast.Node) bool {
+				if u, ok := q.(*ast.UnaryExpr); ok && u.Op == token.NOT {
+					if s2, ok := core.Unparen(u.X).(*ast.SelectorExpr); ok {
+						if rid, ok := s2.X.(*ast.Ident); ok && core.ObjOf(info, rid) == X {
+							if b, ok := info.TypeOf(s2).Underlying().(*types.Basic); ok && b.Kind() == types.Bool {
+								flag = s2.Sel.Name
+							}
+						}
+					}
+				}
+				return true
+			})
+			return true
+		})
+		if flag == "" {
+			r.Fail("E9.depth-from-result-edge", key, c.Pos(as.Pos()), fmt.Sprintf("`%s` is read without first moving `%s` down the prev chain past the segments that are not part of the result: a segment that is not in the result has resultWindings 0, so the contour above it is taken for an outer contour", c.Src(as.Rhs[0]), xid.Name))
+			return true
+		}
+		// the flag is assigned from inResult before the first inResult--
+		flagOK := false
+		ast.Inspect(fd.Body, func(k ast.Node) bool {
+			a2, ok := k.(*ast.AssignStmt)
+			if !ok || len(a2.Lhs) != 1 || len(a2.Rhs) != 1 || a2.Pos() > firstDec {
+				return true
+			}
+			if l, ok := a2.Lhs[0].(*ast.SelectorExpr); ok && l.Sel.Name == flag {
+				mentions := false
+				ast.Inspect(a2.Rhs[0], func(q ast.Node) bool {
+					if s2, ok := q.(*ast.SelectorExpr); ok && s2.Sel.Name == "inResult" {
+						mentions = true
+					}
+					return true
+				})
+				if mentions {
+					flagOK = true
+				}
+			}
+			return true
+		})
+		if !flagOK {
+			r.Fail("E9.depth-from-result-edge", key, c.Pos(as.Pos()), fmt.Sprintf("the flag `%s` that the skipping loop tests is not assigned from inResult before the builder starts to consume inResult", flag))
+		} else {
+			r.OK("E9.depth-from-result-edge", key, c.Pos(as.Pos()), "flag "+flag)
+		}
+		return true
+	})
+	r.Count("E9.depth-reads", n)
+	r.Floor("E9.depth-reads", 1)
+}
+
+// E9SquareRange: only segments that were tested to cross a tolerance square bound its break-up range.
+func E9SquareRange(c *core.Ctx, r *core.Report) {
+	r.Rule("E9.square-range", "toleranceSquares.breakupCrossingSegments: the range Lower…Upper of a tolerance square is the set of status segments that are broken up and snapped to the square's centre. Every assignment to square.Lower or square.Upper therefore stores a node that was tested to cross the square: the variable of the scan loop it sits in, after the two tests of that variable's ToleranceEdgeY against the square's top and bottom both sent the non-crossing cases away (break/continue), or the reference node square.Node under the condition that it is neither below nor above. Storing the reference node where it is known to lie below the square pulls an unrelated edge into the range: it gets a vertex at the square's centre and Settle returns a different region without any error")
+	p := c.MustPkg("")
+	info := p.TypesInfo
+	fd := core.MustFuncDecl(p, "toleranceSquares.breakupCrossingSegments")
+	r.Func("canvas.toleranceSquares.breakupCrossingSegments")
+	n := 0
+	var stack []ast.Node
+	ast.Inspect(fd.Body, func(m ast.Node) bool {
+		if m == nil {
+			stack = stack[:len(stack)-1]
+			return true
+		}
+		stack = append(stack, m)
+		as, ok := m.(*ast.AssignStmt)
+		if !ok || as.Tok != token.ASSIGN || len(as.Lhs) != len(as.Rhs) {
+			return true
+		}
+		for i, l := range as.Lhs {
+			se, ok := core.Unparen(l).(*ast.SelectorExpr)
+			if !ok || (se.Sel.Name != "Lower" && se.Sel.Name != "Upper") {
+				continue
+			}
+			if t := info.TypeOf(se.X); t == nil || !strings.Contains(t.String(), "toleranceSquare") {
+				continue
+			}
+			n++
+			key := fmt.Sprintf("canvas.toleranceSquares.breakupCrossingSegments|%s assignment #%d stores a node tested to cross the square", se.Sel.Name, n)
+			rhs := core.Unparen(as.Rhs[i])
+			okSite, why := false, ""
+			switch x := rhs.(type) {
+			case *ast.Ident:
+				// loop variable of an enclosing scan loop, tested in the statements before
+				o := core.ObjOf(info, x)
+				var loop *ast.ForStmt
+				var block *ast.BlockStmt
+				for k := len(stack) - 2; k >= 0; k-- {
+					if b, ok := stack[k].(*ast.BlockStmt); ok && block == nil {
+						block = b
+					}
+					if f, ok := stack[k].(*ast.ForStmt); ok {
+						loop = f
+						break
+					}
+				}
+				isLoopVar := false
+				if loop != nil {
+					defines := func(st ast.Stmt) bool {
+						d, ok := st.(*ast.AssignStmt)
+						if !ok {
+							return false
+						}
+						for _, dl := range d.Lhs {
+							if id, ok := dl.(*ast.Ident); ok && core.ObjOf(info, id) == o {
+								return true
+							}
+						}
+						return false
+					}
+					if loop.Init != nil && defines(loop.Init) {
+						isLoopVar = true
+					}
+					if loop.Post != nil && defines(loop.Post) {
+						isLoopVar = true
+					}
+				}
+				if !isLoopVar {
+					why = "`" + x.Name + "` is not the variable of the scan loop around the assignment"
+					break
+				}
+				// in the loop body, before the assignment: `y0, y1 := V.ToleranceEdgeY(…)` and an if/else-if
+				// whose two branches both end in break/continue
+				edge := false
+				filtered := 0
+				for _, st := range loop.Body.List {
+					if st.Pos() >= as.Pos() {
+						break
+					}
+					if d, ok := st.(*ast.AssignStmt); ok && len(d.Rhs) == 1 {
+						if call, ok := d.Rhs[0].(*ast.CallExpr); ok {
+							if s2, ok := call.Fun.(*ast.SelectorExpr); ok && s2.Sel.Name == "ToleranceEdgeY" {
+								if id, ok := core.Unparen(s2.X).(*ast.Ident); ok && core.ObjOf(info, id) == o {
+									edge = true
+								}
+							}
+						}
+					}
+					if is, ok := st.(*ast.IfStmt); ok && edge {
+						for cur := is; cur != nil; {
+							if len(cur.Body.List) > 0 {
+								if b, ok := cur.Body.List[len(cur.Body.List)-1].(*ast.BranchStmt); ok && (b.Tok == token.BREAK || b.Tok == token.CONTINUE) {
+									filtered++
+								}
+							}
+							next, _ := cur.Else.(*ast.IfStmt)
+							cur = next
+						}
+					}
+				}
+				// the assignment itself must be at the top level of the loop body or under an `== nil` guard of the field
+				if edge && filtered >= 2 {
+					okSite = true
+				} else {
+					why = fmt.Sprintf("the scan variable `%s` is stored without both of its non-crossing cases (above, below) having been sent away first (%d of 2 found)", x.Name, filtered)
+				}
+			case *ast.SelectorExpr:
+				// square.Node under `!below && !above`
+				if x.Sel.Name != "Node" {
+					why = "`" + c.Src(x) + "` is not the reference node"
+					break
+				}
+				guarded := false
+				for k := len(stack) - 2; k >= 0; k-- {
+					is, ok := stack[k].(*ast.IfStmt)
+					if !ok || !(is.Body.Pos() <= as.Pos() && as.End() <= is.Body.End()) {
+						continue
+					}
+					// condition: conjunction of two negated bool locals, each defined from square.Node.ToleranceEdgeY results
+					var negs []types.Object
+					var split func(e ast.Expr) bool
+					split = func(e ast.Expr) bool {
+						e = core.Unparen(e)
+						if be, ok := e.(*ast.BinaryExpr); ok && be.Op == token.LAND {
+							return split(be.X) && split(be.Y)
+						}
+						if u, ok := e.(*ast.UnaryExpr); ok && u.Op == token.NOT {
+							if id, ok := core.Unparen(u.X).(*ast.Ident); ok {
+								negs = append(negs, core.ObjOf(info, id))
+								return true
+							}
+						}
+						return false
+					}
+					if split(is.Cond) && len(negs) == 2 && negs[0] != negs[1] {
+						guarded = true
+					}
+				}
+				if guarded {
+					okSite = true
+				} else {
+					why = "the reference node is stored without the guard that it is neither below nor above the square"
+				}
+			default:
+				why = "`" + c.Src(rhs) + "` is neither the scan variable nor the reference node"
+			}
+			if okSite {
+				r.OK("E9.square-range", key, c.Pos(as.Pos()), "")
+			} else {
+				r.Fail("E9.square-range", key, c.Pos(as.Pos()), why+": a segment that does not cross the tolerance square can end up in its break-up range and is snapped to a far-away point")
+			}
+		}
+		return true
+	})
+	r.Count("E9.square-range-assignments", n)
+	r.Floor("E9.square-range-assignments", 5)
+}
